@@ -101,6 +101,7 @@ package keeper
 //@ ensures first_alone: err == nil ==> rawMsgCount(rpp.Txs[0]) == 1 && isNewEthBlockMsg(rawMsgAt(rpp.Txs[0], 0))
 //@ ensures no_later: err == nil ==> forall(i, 1, len(rpp.Txs), forall(j, 0, rawMsgCount(rpp.Txs[i]), !isNewEthBlockMsg(rawMsgAt(rpp.Txs[i], j))))
 //@ loop 0 invariant idx: -1 <= rangeindex && rangeindex < len(rpp.Txs)
+//@ loop 0 invariant untouched_before_first: rangeindex == -1 ==> st.bitcoin.EthTxNonce == old(st.bitcoin.EthTxNonce)
 //@ loop 0 invariant first_alone: rangeindex >= 0 ==> rawMsgCount(rpp.Txs[0]) == 1 && isNewEthBlockMsg(rawMsgAt(rpp.Txs[0], 0))
 //@ loop 0 invariant no_later: forall(i, 1, rangeindex + 1, forall(j, 0, rawMsgCount(rpp.Txs[i]), !isNewEthBlockMsg(rawMsgAt(rpp.Txs[i], j))))
 //@ loop 1 invariant idx: -1 <= rangeindex && rangeindex < len(msgs)
